@@ -128,3 +128,12 @@ impl BytesMut {
     #[verifier::external_body]
     pub fn extend_from_slice(&mut self, s: &[u8]) ensures final(self)@ == old(self)@ + s@ { unimplemented!() }
 }
+
+// things BytesMut::put accepts in the extracted code: &[u8] and Bytes
+pub trait BufSrc: Sized { spec fn src_bytes(&self) -> Seq<u8>; }
+impl BufSrc for &[u8] { open spec fn src_bytes(&self) -> Seq<u8> { (*self)@ } }
+impl BufSrc for Bytes { open spec fn src_bytes(&self) -> Seq<u8> { self@ } }
+impl BytesMut {
+    #[verifier::external_body]
+    pub fn put<T: BufSrc>(&mut self, src: T) ensures final(self)@ == old(self)@ + src.src_bytes() { unimplemented!() }
+}
